@@ -163,6 +163,12 @@ def generate():
         ("Key<32>.into()", "let _: PasetoSymmetricKey<V%d, Public> = Key::<32>::from([0u8; 32]).into();"),
         ("try_from &str", "let _ = PasetoSymmetricKey::<V%d, Public>::try_from(\"00\");"),
         ("str.parse()", "let _ = \"00\".parse::<PasetoSymmetricKey<V%d, Public>>();"),
+        ("try_from &[u8]", "let _ = PasetoSymmetricKey::<V%d, Public>::try_from(&[0u8; 32][..]);"),
+        ("try_from Vec<u8>", "let _ = PasetoSymmetricKey::<V%d, Public>::try_from(vec![0u8; 32]);"),
+        ("from String", "let _ = PasetoSymmetricKey::<V%d, Public>::from(String::from(\"00\"));"),
+        ("serde_json::from_str", "let _ = serde_json::from_str::<PasetoSymmetricKey<V%d, Public>>(\"\\\"00\\\"\");"),
+        ("serde_json::from_value", "let _ = serde_json::from_value::<PasetoSymmetricKey<V%d, Public>>(serde_json::Value::Null);"),
+        ("FromIterator", "let _: PasetoSymmetricKey<V%d, Public> = [0u8; 32].into_iter().collect();"),
     ]
     for v in (1, 2, 3, 4):
         for rname, line in routes:
@@ -194,6 +200,8 @@ autobins = true
 
 [dependencies]
 rusty_paseto = { path = "%s", default-features = false, features = ["batteries_included", "v1_local", "v2_local", "v3_local", "v4_local", "v1_public", "v2_public", "v3_public", "v4_public"] }
+serde_json = "1.0"
+serde = "1.0"
 
 [profile.dev]
 debug = 0
@@ -321,7 +329,7 @@ def main():
         "traces_validated_against_impl": len(progs),
         "programs": len(progs),
         "exhaustive": True,
-        "space": "grid of generated client programs: (6 operations x 8 token protocols x 8 key protocols), nonce version x token version, purpose misuse at the core and generic-builder layers, set_implicit_assertion on 5 holder types x 8 protocols, symmetric-key purpose (From<Key<32>> and eight other construction routes), asymmetric key from Key<N> for N in {32,48,49,64} x 4 versions x {private, public}",
+        "space": "grid of generated client programs: (6 operations x 8 token protocols x 8 key protocols), nonce version x token version, purpose misuse at the core and generic-builder layers, set_implicit_assertion on 5 holder types x 8 protocols, symmetric-key purpose (From<Key<32>> and fourteen other construction routes incl. serde's Deserialize), asymmetric key from Key<N> for N in {32,48,49,64} x 4 versions x {private, public}",
         "programs_per_family": fam,
         "must_compile": len(pos),
         "must_not_compile": len(neg),
